@@ -68,7 +68,8 @@ Print Assumptions C09_comment_ends_only_behind_a_terminator.
 Theorem C09_unclosed_comment_is_reported : forall fuel s, (forall k, starts close_mark (skipn k s) = false) -> scan fuel s = Unclosed.
 Proof. exact scan_unclosed. Qed.
 Print Assumptions C09_unclosed_comment_is_reported.
-Theorem C09_text_without_comments_unchanged : forall fuel s, List.length s < fuel -> (forall k, starts open_mark (skipn k s) = false) -> strip fuel s = Some s.
+Theorem C09_text_without_comments_unchanged : forall fuel s, List.length s < fuel ->
+  (forall k, starts open_mark (skipn k s) = false /\ starts line_mark (skipn k s) = false) -> strip fuel s = Some s.
 Proof. exact strip_without_comments. Qed.
 Print Assumptions C09_text_without_comments_unchanged.
 
